@@ -99,7 +99,9 @@ impl CompileConst for Value {
       },
       Value::EmptyKind(k) => ctx.compile_const(&[], k.clone())?,
       Value::Empty => ctx.compile_const(&[], ValueKind::Empty)?,
-      x => todo!("CompileConst not implemented for {:?}", x),
+      // A value of any other kind (tuple, map, enum, kind, reference ...) has no constant encoding yet:
+      // report it instead of panicking, so that compiling such a program fails cleanly.
+      x => return Err(MechError::new(GenericError { msg: format!("Cannot compile a constant of kind {:?} to bytecode", x.kind()) }, None).with_compiler_loc()),
     };
     Ok(reg)
   }
